@@ -10,6 +10,7 @@ import (
 	"github.com/jwhited/corebgp"
 
 	"verif/internal/hz"
+	"verif/internal/memnet"
 	"verif/internal/ref"
 	"verif/internal/rt"
 	"verif/internal/wire"
@@ -55,7 +56,7 @@ func c08World(t *testing.T, p c08Params) rt.Result {
 	hdr, _ := hex.DecodeString(p.Header)
 	faults := headerFaults(hdr)
 	r := rt.Get().Rand("c08w", int(p.Seed))
-	out := hz.Run(t, hz.Opts{Seed: p.Seed, HookMode: p.Hook, WriteYields: 3}, func(w *hz.World) {
+	out := hz.Run(t, hz.Opts{Seed: p.Seed, HookMode: p.Hook, WriteYields: 3, EOFWithData: p.Seed%3 == 0}, func(w *hz.World) {
 		ps := hz.StdPeer("10.0.1.1")
 		ps.Passive = p.Dir == "in"
 		v := pickVariety(r, p.Dir)
@@ -141,11 +142,21 @@ func c08World(t *testing.T, p c08Params) rt.Result {
 		rc.W.Log.Add("tx", ps.Addr.String(), rc.ID, fmt.Sprintf("stream prefix=%d header=%s", p.Prefix, p.Header), "")
 		v.Kick()
 		rc.SendCuts(stream, cs, time.Nanosecond)
+		closeAfter := p.Seed%3 == 0 && r.IntN(2) == 0
+		if closeAfter {
+			// the remote hangs up at once: in these worlds the last bytes reach corebgp
+			// together with the end of the stream; what was sent still counts
+			rc.Pair.Configure(func(pp *memnet.Pair) { pp.WriteAfterPeerCloseOK = true })
+			rc.Close()
+		}
 		w.Settle()
 
 		desc := fmt.Sprintf("[%s/%s prefix=%d header=%s]", p.Dir, p.State, p.Prefix, p.Header)
 		got := sansEcho(rc.Msgs()[base:])
 		eof, _ := rc.EOF()
+		if closeAfter {
+			eof = rc.Pair.Closed(0) > 0
+		}
 		// expected: wantKeepalive KEEPALIVEs, then exactly one NOTIFICATION among the allowed, then EOF
 		nk := 0
 		for len(got) > 0 && got[0].Type == wire.TypeKeepalive && nk < wantKeepalive {
